@@ -71,6 +71,18 @@ ClockVectors(E) ==
   IN  cv
 ClockRel(E) == LET cv == ClockVectors(E) IN { q \in Ev(E) \X Ev(E) : q[1] < q[2] /\ q[1] <= cv[q[2]][E.actor[q[1]]] }
 
+(* Canonical representative of the Mazurkiewicz class of an execution (C40): its lexicographic normal form -- repeatedly  *)
+(* emit the event of the smallest actor among the events all of whose happens-before predecessors are emitted (pred[e]  *)
+(* = the events that happen before e).  Two executions of one program are equivalent iff their normal forms list the    *)
+(* same (actor, transition) sequence.                                                                                     *)
+RECURSIVE NormalFormFrom(_, _, _)
+NormalFormFrom(E, pred, done) ==
+  IF done = Ev(E) THEN <<>>
+  ELSE LET ready == { e \in Ev(E) \ done : pred[e] \subseteq done }
+           e     == CHOOSE x \in ready : \A y \in ready : E.actor[x] < E.actor[y] \/ (E.actor[x] = E.actor[y] /\ x <= y)
+       IN  <<e>> \o NormalFormFrom(E, pred, done \cup {e})
+NormalForm(E, pred) == NormalFormFrom(E, pred, {})
+
 \* ---------------------------------------------------------------------------- properties of the definitions (HbMC)
 IsStrictPartialOrderWithin(hb, E) ==
   /\ \A p \in hb : p[1] < p[2]                                           \* contained in "occurs before", irreflexive
